@@ -55,6 +55,13 @@ def _is_negative_const(e):
     return e[0] == 'Const' and e[1]['t'] == 'int' and e[1]['v'] < 0
 
 
+def _fstr_depth(e):
+    """Nesting depth of f-strings inside replacement fields of f-strings."""
+    from .c03 import _children
+    inner = max([_fstr_depth(c) for c in _children(e)] or [0])
+    return inner + 1 if e[0] == 'FStr' else inner
+
+
 def features(e, out=None):
     """Features of the tree that name the known defects, in a fixed order of precedence."""
     from .c03 import _children
@@ -97,6 +104,8 @@ def features(e, out=None):
             found.add('invert-operator-crashes')
         if k == 'FStr' and len(x[1]) == 1 and x[1][0][0] == 'Fld' and not x[1][0][2] and not x[1][0][3]:
             found.add('generator-form:bare-formatted-value-loses-str-conversion')
+        if k == 'FStr' and _fstr_depth(x) >= 3:
+            found.add('fstring-nested-three-deep-does-not-compile')
         if k == 'FStr':
             def parts(ps):
                 for p in ps:
@@ -110,7 +119,7 @@ def features(e, out=None):
         for c in kids:
             visit(c)
     visit(e)
-    order = ['invert-operator-crashes', 'fstring-format-spec-dropped', 'fstring-literal-brace-not-escaped',
+    order = ['invert-operator-crashes', 'fstring-nested-three-deep-does-not-compile', 'fstring-format-spec-dropped', 'fstring-literal-brace-not-escaped',
              'conditional-expression-operand-not-parenthesised', 'lambda-operand-not-parenthesised',
              'primary-of-attribute-subscript-call-not-parenthesised', 'attribute-of-int-literal',
              'single-element-tuple-subscript-loses-comma', 'generator-form:bare-formatted-value-loses-str-conversion',
